@@ -30,7 +30,9 @@ def gen_scenario(rng, idx):
             "pre_done_ns": rng.choice([0, 0, period_us * 900, period_us * 1100, period_us * 3000]),
         })
     return {"id": idx, "period_us": period_us, "phases": phases, "settle_periods": 25,
-            "gomaxprocs": rng.choice([0, 1, 2, 3, 8, 16])}
+            "gomaxprocs": rng.choice([0, 1, 2, 3, 8, 16]),
+            # a tenth of the scenarios write to a stderr whose writes fail: nothing may crash, the discipline stays
+            "fail_every": rng.choice([1, 2, 5]) if idx % 10 == 7 else 0}
 
 
 def judge_scenario(sc, o):
@@ -238,6 +240,23 @@ def cli_case(arg):
             out["viol"].append(("unparsable-stderr-with-progress", {"rest": junk[:3]}))
         out["sample"] = {"argv": a2, "final_frames": {k.decode(): v for k, v in finals.items()}, "tick_frames": out["ticks"],
                          "delayed_children": bool(rules)}
+        # a stderr that cannot be written (/dev/full) behind slow children, so that ticks happen: progress must not change
+        # stdout or the exit status
+        if idx % 3 == 0:
+            rules2 = [{"sig": "rev-list", "ord": -1, "mode": "delay", "chunk": 64, "chunk_ms": 40, "max_ms": 600},
+                      {"sig": "cat-file --batch", "ord": -1, "mode": "delay", "chunk": 256, "chunk_ms": 40, "max_ms": 600}]
+            plan2 = R.make_plan(os.path.join(d, "fullplan"), rules2)
+            e2 = R.base_env({}, shimdir=shimdir)
+            e2["VERIF_SHIM_PLAN"] = plan2
+            import subprocess as sp
+            with open("/dev/full", "wb") as full, open(os.path.join(d, "full.out"), "wb") as fo:
+                pr = sp.run([sz] + argv + ["--progress"], cwd=gitdir, env=e2, stdout=fo, stderr=full, timeout=120)
+            out["evals"] += 1
+            got_full = open(os.path.join(d, "full.out"), "rb").read()
+            if pr.returncode != 0 or got_full != r0.out:
+                out["viol"].append(("progress-with-unwritable-stderr-changes-result", {"rc": pr.returncode, "stdout_bytes": len(got_full),
+                                                                                     "expected_bytes": len(r0.out)}))
+            out["devfull_runs"] = out.get("devfull_runs", 0) + 1
         # failing runs: the frame discipline (nothing for a phase after its final line, counts never decrease) holds on
         # stderr also when a git child dies before / in the middle of / right after its output
         for k in range(3):
@@ -282,6 +301,7 @@ def run(chk, b, tier):
     for i, r in enumerate(res):
         chk.count(r["evals"])
         chk.bump("cli_failing_runs_with_progress_judged", r.get("fault_runs", 0))
+        chk.bump("cli_runs_with_stderr_dev_full", r.get("devfull_runs", 0))
         ticks += r["ticks"]
         for clause, det in r["viol"]:
             chk.violation("C18/cli/" + clause, det)
